@@ -364,6 +364,8 @@ def transforms_in(t):
         seen.add(id(x))
         if isinstance(x, Opaque) and isinstance(x.text, str) and x.text.startswith('str.'):
             out.append(x.text[4:])
+        if isinstance(x, Opaque) and isinstance(x.text, str) and x.text.startswith('order.'):
+            out.append(x.text)
         for k in ('parts', 'items'):
             for y in getattr(x, k, None) or []:
                 walk(y)
@@ -606,6 +608,9 @@ class ActionEval(object):
                 return Const(len(self.rhs) + 1)
             if f == 'isinstance' and len(e.args) == 2:
                 return IsInst(self.ev(e.args[0]), norm(e.args[1]))
+            if f in ('sorted', 'reversed', 'set', 'frozenset') and e.args:
+                # the members of a parse value in another order (or with repeats collapsed)
+                return Opaque('order.%s' % f, [self.ev(e.args[0])])
             if isinstance(e.func, ast.Attribute) and e.func.attr in STR_TRANSFORMS:
                 # a string method applied to a parse value: the value is no longer what was written
                 return Opaque('str.%s' % e.func.attr, [self.ev(e.func.value)])
@@ -650,6 +655,18 @@ class ActionEval(object):
             if t is False:
                 return self.ev(e.orelse)
             return Cond(t, self.ev(e.body), self.ev(e.orelse))
+        if isinstance(e, (ast.ListComp, ast.GeneratorExp)) and len(e.generators) == 1 and \
+                isinstance(e.generators[0].target, ast.Name):
+            g = e.generators[0]
+            try:
+                src = self.ev(g.iter)
+            except Unsupported:
+                src = None
+            if src is not None and src.syms():
+                if isinstance(e.elt, ast.Name) and e.elt.id == g.target.id and not g.ifs:
+                    return src      # a plain copy
+                # members of a parse value replaced or filtered one by one
+                return Opaque('order.comprehension', [src])
         raise Unsupported('expression %s' % type(e).__name__)
 
     def const_int(self, n):
@@ -889,4 +906,87 @@ def tagged_constructors(term):
         elif isinstance(t, (Idx, Slc)):
             walk(t.t)
     walk(term)
+    return out
+
+
+# ---------------------------------------------------------------------------------------------------------------------
+# presence scenarios: a term evaluated with every optional part either absent (None) or present (an opaque mark)
+class Mark(object):
+    """the value of a part that is present; projections of it stay marks of the same part"""
+    def __init__(self, root):
+        self.root = root
+
+    def __repr__(self):
+        return '<p%d>' % self.root
+
+
+class Bag(object):
+    """a value built from parts by an operation the scenario evaluation does not interpret (+ over marks, opaque)"""
+    def __init__(self, parts):
+        self.parts = list(parts)
+
+
+class ScenarioError(Exception):
+    pass
+
+
+def eval_presence(t, env):
+    """value of term t when the part behind Sym(i) is env[i] (None or a Mark).  Raises ScenarioError when the scenario
+    cannot be decided (a test over something other than presence) or would raise at run time (None subscripted)."""
+    if isinstance(t, Sym):
+        return env[t.i]
+    if isinstance(t, Const):
+        return t.v
+    if isinstance(t, Tup):
+        return tuple(eval_presence(x, env) for x in t.items)
+    if isinstance(t, Lst):
+        return [eval_presence(x, env) for x in t.items]
+    if isinstance(t, Cat):
+        a, b = eval_presence(t.a, env), eval_presence(t.b, env)
+        if a is None or b is None:
+            raise ScenarioError('None + ...')
+        if isinstance(a, list) and isinstance(b, list):
+            return a + b
+        if isinstance(a, tuple) and isinstance(b, tuple):
+            return a + b
+        if isinstance(a, str) and isinstance(b, str):
+            return a + b
+        return Bag([a, b])
+    if isinstance(t, (Idx, Slc)):
+        v = eval_presence(t.t, env)
+        if v is None:
+            raise ScenarioError('None subscripted')
+        if isinstance(v, (Mark, Bag)):
+            return v
+        try:
+            return v[t.i] if isinstance(t, Idx) else v[t.lo:t.hi]
+        except Exception:
+            raise ScenarioError('subscript out of range')
+    if isinstance(t, Cond):
+        c = eval_presence(t.test, env)
+        if isinstance(c, Bag):
+            if not roots_in(c):
+                raise ScenarioError('test over an uninterpreted value')
+            c = True    # built from a part that is present: taken as non-empty
+        return eval_presence(t.a if (True if isinstance(c, Mark) else bool(c)) else t.b, env)
+    if isinstance(t, IsNone):
+        v = eval_presence(t.t, env)
+        return (v is None) != t.neg
+    if isinstance(t, DictT):
+        return Bag([])
+    if isinstance(t, Opaque):
+        return Bag([eval_presence(x, env) for x in getattr(t, 'parts', ()) or ()])
+    raise ScenarioError('term %s' % type(t).__name__)
+
+
+def roots_in(v):
+    out = set()
+    if isinstance(v, Mark):
+        out.add(v.root)
+    elif isinstance(v, Bag):
+        for x in v.parts:
+            out |= roots_in(x)
+    elif isinstance(v, (tuple, list)):
+        for x in v:
+            out |= roots_in(x)
     return out
